@@ -381,12 +381,12 @@ func RLazyTable(c *core.Ctx) {
 			for _, ins := range b.Instrs {
 				switch x := ins.(type) {
 				case *ssa.Call:
-					if cal := x.Call.StaticCallee(); cal != nil && cal.Pkg != nil && cal.Pkg.Pkg.Path() == "unicode/utf8" && cal.Name() == "RuneLen" {
+					if cal := x.Call.StaticCallee(); cal != nil && cal.Pkg != nil && cal.Pkg.Pkg.Path() == "unicode/utf8" && core.BaseName(cal) == "RuneLen" {
 						width[x] = true
 					}
 				case *ssa.Extract:
 					if call, ok := x.Tuple.(*ssa.Call); ok && x.Index == 1 {
-						if cal := call.Call.StaticCallee(); cal != nil && cal.Pkg != nil && cal.Pkg.Pkg.Path() == "unicode/utf8" && strings.HasPrefix(cal.Name(), "Decode") {
+						if cal := call.Call.StaticCallee(); cal != nil && cal.Pkg != nil && cal.Pkg.Pkg.Path() == "unicode/utf8" && strings.HasPrefix(core.BaseName(cal), "Decode") {
 							width[x] = true
 						}
 					}
@@ -489,14 +489,14 @@ func RStepDecode(c *core.Ctx) {
 						continue
 					}
 					cal := call.Call.StaticCallee()
-					if cal == nil || cal.Pkg == nil || cal.Pkg.Pkg.Path() != "unicode/utf8" || !strings.HasPrefix(cal.Name(), "Decode") {
+					if cal == nil || cal.Pkg == nil || cal.Pkg.Pkg.Path() != "unicode/utf8" || !strings.HasPrefix(core.BaseName(cal), "Decode") {
 						continue
 					}
 					sl, ok := call.Call.Args[0].(*ssa.Slice)
 					if !ok {
 						continue
 					}
-					last := strings.HasPrefix(cal.Name(), "DecodeLast")
+					last := strings.HasPrefix(core.BaseName(cal), "DecodeLast")
 					cnt++
 					n++
 					c.Visit(name)
